@@ -449,11 +449,16 @@ class Check:
         self.build = Build(wd, pkgs, stubs=self.stubs, extra_overlay=extra_overlay)
         self.builds.append(self.build)
         self.pkgs = pkgs
+        self.build_failed = None
         try:
             self.prog = self.build.export(bodies)
             self.world = BaseWorld(self.prog, max_unwind=self.max_unwind)
         except (Inconclusive, Unsupported, UnwindError, NeedWidth) as e:
-            self.fail_inconclusive(str(e))
+            if len(self.builds) == 1:
+                self.fail_inconclusive(str(e))
+            # a later build of a multi-build check failed: keep what the earlier builds found, report the rest inconclusive
+            self.build_failed = str(e)
+            log('INCONCLUSIVE property=%s: build %d: %s' % (self.prop, len(self.builds) - 1, str(e)[-1500:]))
 
     def fail_inconclusive(self, msg):
         log('INCONCLUSIVE property=%s: %s' % (self.prop, msg))
@@ -468,6 +473,10 @@ class Check:
     def run(self, jobs, procs=None, **opts):
         """jobs: list of (pk, entryshort, cfg). Runs in parallel processes."""
         global _WORLD
+        if getattr(self, 'build_failed', None):
+            for pk, e, cfg in jobs[:1]:
+                self.results.append({'entry': e, 'config': cfg, 'pkg': pk, 'status': 'inconclusive', 'error': 'build failed: ' + self.build_failed[-300:], 'obligations': [], 'build': len(self.builds) - 1})
+            return []
         _WORLD = self.world
         opts.setdefault('known', self.known)
         flt = os.environ.get('VERIF_ONLY_ENTRY')   # debugging aid: run a subset of the jobs (the run is then reported inconclusive)
